@@ -403,6 +403,12 @@ Proof.
   simpl. unfold tag. rewrite in_map_iff. exists e. auto.
 Qed.
 
+Lemma flatten_nil m : (forall s l, In (s, l) m -> l = []) -> flatten m = [].
+Proof.
+  induction m as [|[s l] m IH]; simpl; intros H; [reflexivity|].
+  rewrite (H s l (or_introl eq_refl)). simpl. apply IH. intros; eapply H; right; eauto.
+Qed.
+
 (** ** The invariant: the four structures are in step with the pending set *)
 
 Definition key_tx (k : key) : tx := (k_sender k, k_nonce k, k_prio k).
@@ -749,4 +755,194 @@ Lemma count_eq_pending_proof ops :
 Proof.
   intros Hu. pose proof (Inv_run ops Hu) as HI. unfold count. f_equal.
   rewrite <- (Permutation_length (inv_pperm _ _ HI)). now rewrite map_length.
+Qed.
+
+(** ** The iterator *)
+
+Definition wt (s : Z) (sc : list ((Z * Z) * (Z * Z))) (e : Z * Z) : Z * Z := (snd e, snd (score_get s (fst e) sc)).
+Definition ekey (s : Z) (sc : list ((Z * Z) * (Z * Z))) (e : Z * Z) : key :=
+  mkKey (snd e) (snd (score_get s (fst e) sc)) s (fst e).
+
+Lemma pwle_trans a b c : pwle a b -> pwle b c -> pwle a c.
+Proof. unfold pwle. lia. Qed.
+Lemma pwlt_le_trans a b c : pwlt a b -> pwle b c -> pwlt a c.
+Proof. unfold pwle, pwlt. lia. Qed.
+Lemma pwle_lt_trans a b c : pwle a b -> pwlt b c -> pwlt a c.
+Proof. unfold pwle, pwlt. lia. Qed.
+Lemma pwlt_not_le a b : pwlt a b -> ~ pwle b a.
+Proof. unfold pwle, pwlt. lia. Qed.
+
+Lemma drain_split s nxt sc l o rem pn : drain s nxt sc l = (o, rem, pn) -> l = o ++ rem.
+Proof.
+  revert o rem pn. induction l as [|[n p] r IH]; simpl; intros o rem pn H.
+  - inversion H; reflexivity.
+  - destruct (p <? _); [inversion H; reflexivity|].
+    match type of H with (match ?x with _ => _ end) = _ => destruct x end; [inversion H; reflexivity|].
+    destruct (drain s nxt sc r) as [[o' rem'] pn']. inversion H; subst. simpl. f_equal. eapply IH; eauto.
+Qed.
+
+(** no panic when a next node exists or the priorities are above MinValue *)
+Lemma drain_nopanic s nxt sc l o rem pn :
+  drain s nxt sc l = (o, rem, pn) -> (nxt = None -> forall e, In e l -> min_value < snd e) -> pn = false.
+Proof.
+  revert o rem pn. induction l as [|[n p] r IH]; simpl; intros o rem pn H G.
+  - now inversion H.
+  - destruct (p <? _); [now inversion H|].
+    destruct nxt as [k|].
+    + destruct (p =? k_prio k).
+      * destruct (snd (score_get s n sc) <? k_weight k); [now inversion H|].
+        destruct (drain s (Some k) sc r) as [[o' rem'] pn'] eqn:E. inversion H; subst. eapply IH; eauto; intros; discriminate.
+      * destruct (drain s (Some k) sc r) as [[o' rem'] pn'] eqn:E. inversion H; subst. eapply IH; eauto; intros; discriminate.
+    + specialize (G eq_refl). pose proof (G (n, p) (or_introl eq_refl)) as Gp. simpl in Gp.
+      destruct (Z.eqb_spec p min_value); [lia|].
+      destruct (drain s None sc r) as [[o' rem'] pn'] eqn:E. inversion H; subst. eapply IH; eauto.
+Qed.
+
+(** what stops a drain fails the test against the next index node *)
+Lemma drain_rem_fails s nxt sc l o rem h t :
+  drain s nxt sc l = (o, rem, false) -> (nxt = None -> forall e, In e l -> min_value < snd e) ->
+  rem = h :: t -> exists k, nxt = Some k /\ pwlt (wt s sc h) (kpw k).
+Proof.
+  revert o. induction l as [|[n p] r IH]; simpl; intros o H G Er.
+  - inversion H; subst. discriminate.
+  - destruct nxt as [k|].
+    + destruct (Z.ltb_spec p (k_prio k)).
+      * inversion H as [[Eo Erem]]. rewrite Er in Erem. inversion Erem; subst. exists k. split; [reflexivity|]. unfold pwlt, wt, kpw; simpl. lia.
+      * destruct (Z.eqb_spec p (k_prio k)).
+        -- destruct (Z.ltb_spec (snd (score_get s n sc)) (k_weight k)).
+           ++ inversion H as [[Eo Erem]]. rewrite Er in Erem. inversion Erem; subst. exists k. split; [reflexivity|]. unfold pwlt, wt, kpw; simpl. lia.
+           ++ destruct (drain s (Some k) sc r) as [[o' rem'] pn'] eqn:E. inversion H; subst. eapply IH; eauto; intros; discriminate.
+        -- destruct (drain s (Some k) sc r) as [[o' rem'] pn'] eqn:E. inversion H; subst. eapply IH; eauto; intros; discriminate.
+    + specialize (G eq_refl). pose proof (G (n, p) (or_introl eq_refl)) as Gp. simpl in Gp.
+      destruct (Z.ltb_spec p min_value); [lia|]. destruct (Z.eqb_spec p min_value); [lia|].
+      destruct (drain s None sc r) as [[o' rem'] pn'] eqn:E. inversion H; subst.
+      exfalso. edestruct IH as [k [Ek _]]; eauto; discriminate.
+Qed.
+
+(** what a drain emits passes the test against the next index node *)
+Lemma drain_out_passes s k sc l o rem pn e :
+  drain s (Some k) sc l = (o, rem, pn) -> In e o -> pwle (kpw k) (wt s sc e).
+Proof.
+  revert o. induction l as [|[n p] r IH]; simpl; intros o H Hin.
+  - inversion H; subst. contradiction.
+  - destruct (Z.ltb_spec p (k_prio k)); [inversion H; subst; contradiction|].
+    destruct (Z.eqb_spec p (k_prio k)).
+    + destruct (Z.ltb_spec (snd (score_get s n sc)) (k_weight k)); [inversion H; subst; contradiction|].
+      destruct (drain s (Some k) sc r) as [[o' rem'] pn'] eqn:E. inversion H; subst.
+      destruct Hin as [<-|Hin]; [unfold pwle, wt, kpw; simpl; lia|eapply IH; eauto].
+    + destruct (drain s (Some k) sc r) as [[o' rem'] pn'] eqn:E. inversion H; subst.
+      destruct Hin as [<-|Hin]; [unfold pwle, wt, kpw; simpl; lia|eapply IH; eauto].
+Qed.
+
+(** *** every pending transaction exactly once *)
+
+Record WOK (sc : list ((Z * Z) * (Z * Z))) (pi : list key) (cur : list (Z * slist)) : Prop := {
+  wok_sorted : psorted pi;
+  wok_keys : NoDup (map fst cur);
+  wok_guard : forall s l e, In (s, l) cur -> In e l -> min_value < snd e;
+  wok_wit : forall s l e, In (s, l) cur -> In e l ->
+      exists k, In k pi /\ k_sender k = s /\ pwle (kpw k) (wt s sc e)
+}.
+
+Lemma walk_perm sc pi : forall cur, WOK sc pi cur ->
+  snd (walk sc pi cur) = false /\ Permutation (fst (walk sc pi cur)) (flatten cur).
+Proof.
+  induction pi as [|k rest IH]; intros cur HW.
+  - simpl. split; [reflexivity|].
+    assert (E : flatten cur = []).
+    { apply flatten_nil. intros s l Hin.
+      destruct l as [|e l]; [reflexivity|].
+      destruct (wok_wit _ _ _ HW s (e :: l) e Hin (or_introl eq_refl)) as [k [[] _]]. }
+    rewrite E. constructor.
+  - cbn [walk]. set (s := k_sender k).
+    destruct (drain s (hd_error rest) sc (sget s cur)) as [[o rem] pn] eqn:Ed.
+    pose proof (drain_split _ _ _ _ _ _ _ Ed) as Esplit.
+    assert (Hl : forall e, In e (sget s cur) -> In (s, sget s cur) cur).
+    { intros e He. destruct (sget_cases s cur) as [E|]; [rewrite E in He; contradiction|assumption]. }
+    assert (G : hd_error rest = None -> forall e, In e (sget s cur) -> min_value < snd e).
+    { intros _ e He. eapply (wok_guard _ _ _ HW); eauto. }
+    pose proof (drain_nopanic _ _ _ _ _ _ _ Ed G) as Epn. subst pn.
+    assert (HW' : WOK sc rest (aset Z.eqb s rem cur)).
+    { pose proof (wok_sorted _ _ _ HW) as HS. inversion HS as [|? ? HS' HF]; subst.
+      rewrite Forall_forall in HF.
+      constructor.
+      - assumption.
+      - apply (aset_NoDup Z.eqb Z.eqb_spec), (wok_keys _ _ _ HW).
+      - intros s' l' e Hin He. apply (In_aset_inv Z.eqb Z.eqb_spec) in Hin; [|apply (wok_keys _ _ _ HW)].
+        destruct Hin as [[-> ->]|[_ Hin]]; [|eapply (wok_guard _ _ _ HW); eauto].
+        assert (He' : In e (sget s cur)) by (rewrite Esplit; apply in_or_app; now right).
+        eapply (wok_guard _ _ _ HW); eauto.
+      - intros s' l' e Hin He. apply (In_aset_inv Z.eqb Z.eqb_spec) in Hin; [|apply (wok_keys _ _ _ HW)].
+        destruct Hin as [[-> ->]|[Hne Hin]].
+        + destruct rem as [|h t] eqn:Erem; [contradiction|].
+          destruct (drain_rem_fails _ _ _ _ _ _ h t Ed G eq_refl) as [k1 [Ek1 Hfail]].
+          destruct rest as [|k1' rest']; [discriminate|]. simpl in Ek1. inversion Ek1; subst k1'.
+          assert (Hh : In h (sget s cur)) by (rewrite Esplit; apply in_or_app; right; now left).
+          assert (He' : In e (sget s cur)) by (rewrite Esplit; apply in_or_app; now right).
+          destruct (wok_wit _ _ _ HW s _ h (Hl _ Hh) Hh) as [kh [Hkh [Eskh Hle]]].
+          assert (Hk1k : pwle (kpw k1) (kpw k)) by (apply key_gt_pwle, HF; now left).
+          assert (Hkh' : In kh (k1 :: rest')).
+          { destruct Hkh as [<-|]; [|assumption]. exfalso.
+            apply (pwlt_not_le _ _ (pwle_lt_trans _ _ _ Hle Hfail)). exact Hk1k. }
+          destruct (wok_wit _ _ _ HW s _ e (Hl _ He') He') as [ke [Hke [Eske Hlee]]].
+          destruct Hke as [<-|Hke]; [|eauto].
+          exists kh. split; [assumption|]. split; [assumption|].
+          unfold pwle, pwlt in *. lia.
+        + destruct (wok_wit _ _ _ HW s' l' e Hin He) as [k' [Hk' [Esk' Hle]]].
+          destruct Hk' as [<-|Hk']; [exfalso; apply Hne; symmetry; exact Esk'|]. eauto. }
+    destruct (IH _ HW') as [Epn2 HP2].
+    destruct (walk sc rest (aset Z.eqb s rem cur)) as [o2 pn2]. simpl in *. split; [assumption|].
+    pose proof (flatten_aset s rem cur) as HF. rewrite Esplit, tag_app in HF.
+    assert (HF2 : Permutation (tag s rem ++ (tag s o ++ flatten (aset Z.eqb s rem cur))) (tag s rem ++ flatten cur)).
+    { eapply perm_trans; [|exact HF]. rewrite !app_assoc. apply Permutation_app_tail. apply Permutation_app_comm. }
+    apply Permutation_app_inv_l in HF2.
+    eapply perm_trans; [apply Permutation_app_head, HP2|exact HF2].
+Qed.
+
+Lemma Inv_WOK st pd :
+  Inv st pd -> Forall (fun t => min_value < tx_prio t) pd -> WOK (scores st) (pidx st) (sidx st).
+Proof.
+  intros HI HG. constructor.
+  - apply (inv_sorted _ _ HI).
+  - apply (inv_skeys _ _ HI).
+  - intros s l e Hl He. rewrite Forall_forall in HG.
+    apply (HG _ (inv_entry_in_pd _ _ HI _ _ _ Hl He)).
+  - intros s l e Hl He. pose proof (inv_entry_in_pd _ _ HI _ _ _ Hl He) as Hpd.
+    destruct (inv_pd_key _ _ HI _ Hpd) as [k [Hk Ek]]. exists k. split; [assumption|].
+    unfold key_tx in Ek. injection Ek as Es En Ep. split; [exact Es|].
+    unfold wt, score_get. rewrite <- Es, <- En, <- Ep. rewrite (inv_sc1 _ _ HI _ Hk). simpl.
+    unfold pwle, kpw; simpl. lia.
+Qed.
+
+Lemma pending_prio_ok ops : forall pd,
+  Forall (fun t => min_value < tx_prio t) pd -> Forall op_prio_ok ops ->
+  Forall (fun t => min_value < tx_prio t) (fold_left pend_step ops pd).
+Proof.
+  induction ops as [|o ops IH]; intros pd Hpd Hops; [exact Hpd|].
+  inversion Hops; subst. cbn [fold_left]. apply IH; [|assumption].
+  destruct o as [s n p|s n|]; simpl.
+  - apply Forall_app. split; [assumption|]. constructor; [exact H1|constructor].
+  - rewrite Forall_forall in *. intros x Hx. apply filter_In in Hx. now apply Hpd.
+  - assumption.
+Qed.
+
+Lemma select_perm_st st pd :
+  Inv st pd -> Forall (fun t => min_value < tx_prio t) pd ->
+  select_panics st = false /\ Permutation (select st) pd.
+Proof.
+  intros HI HG. unfold select, select_panics, select_op.
+  destruct (pidx st) eqn:E.
+  - simpl. split; [reflexivity|]. pose proof (inv_pperm _ _ HI) as HP. rewrite E in HP. simpl in HP.
+    apply Permutation_nil in HP. subst. constructor.
+  - cbn [fst snd]. pose proof (Inv_reorder _ _ HI) as HI'.
+    destruct (walk_perm _ _ _ (Inv_WOK _ _ HI' HG)) as [Hp HP]. split; [assumption|].
+    eapply perm_trans; [exact HP|apply (inv_sperm _ _ HI')].
+Qed.
+
+Lemma select_is_permutation_proof ops :
+  unique_sender_nonce ops -> priorities_above_min ops ->
+  select_panics (run ops) = false /\ Permutation (select (run ops)) (pending ops).
+Proof.
+  intros Hu Hp. apply select_perm_st; [now apply Inv_run|].
+  apply pending_prio_ok; [constructor|exact Hp].
 Qed.
